@@ -85,6 +85,22 @@ def gen_label(r, used, long=False):
     while True:
         n = 255 if long else r.choice([1, 1, 2, 3, 5, 8, 12, 20, 33])
         s = r.choice([c for c in VALID if c not in BADFIRST]) + ''.join(r.choice(VALID if r.random() < .3 else string.ascii_lowercase + '_') for _ in range(n - 1))
+        # families of labels that are prefixes / extensions of one another (x1, x10, x11; cap, cap_max), and labels that differ in
+        # their last character only or in case only: name lookups that compare less than the whole name confuse them
+        strs = [u for u in used if isinstance(u, str) and u]
+        if strs and not long and r.random() < .35:
+            base = r.choice(strs)
+            m = r.random()
+            if m < .45 and len(base) < 250:
+                s = base + ''.join(r.choice(string.digits + '_' + string.ascii_lowercase) for _ in range(r.choice([1, 1, 2, 4])))
+            elif m < .8 and len(base) > 1:
+                s = base[:r.randint(1, len(base) - 1)]
+            elif m < .9:
+                s = base[:-1] + r.choice(string.ascii_letters + string.digits + '_')
+            else:
+                s = base.swapcase()
+            if s[0] in BADFIRST or any(c not in VALID for c in s):
+                continue
         if s.lower() in RESERVED or s.lower() in PAIRWORDS or s.lower().startswith(('inf', 'nan')) or s in used:
             continue
         used.add(s)
